@@ -800,7 +800,7 @@ func TestC12(t *testing.T) {
 	if res := run.RunChild(fw.ChildSpec{Bin: os.Getenv("VERIF_BIN_RACE"), Test: "^TestC12$", Tag: "racing", Race: true, Anchors: []string{"stack/linkaddrcache.go", "protocol/network/arp/"}, Env: []string{"VERIF_PHASE=racing"}}); !res.Done {
 		run.ChildCrashed(res, "C12/racing", nil)
 	}
-	code := run.Finish("a real stack on a resolution-required link with a scripted neighbour, in virtual time. (a) ARP requests/replies with own, second-own, foreign and off-net targets and malformed packets (truncated, wrong sizes/types): a reply iff the target is an own address, with exact sender/target fields and destination MAC; the neighbour cache, queried after every packet, may only report the latest mapping learned from a reply or from a request addressed to the stack, nothing from other requests, nothing older than the 1 min age limit (virtual sleeps of 30 s, 61 s, 10 min). (b) a UDP write or TCP connect toward an unresolved next hop: no data frame before resolution, broadcast requests exactly 1 s apart, at most three; the neighbour answers the 1st/2nd/3rd request after 0..999 ms or stays silent: the operation must proceed to the learned MAC, or fail with the no-link-address error after the budget. (c) IPv6 neighbour solicitation/advertisement. (d) 520-720 announcements incl. re-announcements with new MACs (cache of 512). (e) racing phase (real time, pinned toolchain, race detector): 1-2 goroutines announce ever new link addresses (each names its neighbour and a serial number) while 2-4 goroutines look neighbours up (unknown ones start resolutions whose retries time out) and remove their wakers; from logical stamps: a reported address belongs to the neighbour asked for, was announced before the lookup returned and is not older than the newest announcement processed before the lookup began; race reports in stack/linkaddrcache.go and protocol/network/arp are violations. distinct = scenario classes Later additions: Waits on neighbours whose host part looks special (x.y.z.255, .0) and with the first resolution request refused by the link. ARP probes (sender 0.0.0.0) are answered iff the target is own.",
+	code := run.Finish("a real stack on a resolution-required link with a scripted neighbour, in virtual time. (a) ARP requests/replies with own, second-own, foreign and off-net targets and malformed packets (truncated, wrong sizes/types): a reply iff the target is an own address, with exact sender/target fields and destination MAC; the neighbour cache, queried after every packet, may only report the latest mapping learned from a reply or from a request addressed to the stack, nothing from other requests, nothing older than the 1 min age limit (virtual sleeps of 30 s, 61 s, 10 min). (b) a UDP write or TCP connect toward an unresolved next hop: no data frame before resolution, broadcast requests exactly 1 s apart, at most three; the neighbour answers the 1st/2nd/3rd request after 0..999 ms or stays silent: the operation must proceed to the learned MAC, or fail with the no-link-address error after the budget. (c) IPv6 neighbour solicitation/advertisement. (d) 520-720 announcements incl. re-announcements with new MACs (cache of 512). (e) racing phase (real time, pinned toolchain, race detector): 1-2 goroutines announce ever new link addresses (each names its neighbour and a serial number) while 2-4 goroutines look neighbours up (unknown ones start resolutions whose retries time out) and remove their wakers; from logical stamps: a reported address belongs to the neighbour asked for, was announced before the lookup returned and is not older than the newest announcement processed before the lookup began; race reports in stack/linkaddrcache.go and protocol/network/arp are violations. distinct = scenario classes Later additions: Every other waiting scenario is observed hands-off: the monitor makes no cache lookups while the operation waits (each lookup would register a waker of its own on the pending entry) and takes the instant the answer was injected as the instant of resolution. Waits on neighbours whose host part looks special (x.y.z.255, .0) and with the first resolution request refused by the link. ARP probes (sender 0.0.0.0) are answered iff the target is own.",
 		[]string{"reference neighbour table kept by the harness (latest mapping + learn time)", "'about 3 s' is judged as: three requests on a 1 s grid and an error observable at 5 s of virtual time"})
 	os.Exit(code)
 }
